@@ -64,7 +64,7 @@ impl Dump for f64 {
 }
 
 pub fn toks<T: ToTokens>(t: &T) -> Value {
-    json!({"t": "toks", "v": t.to_token_stream().to_string()})
+    json!({"t": "toks", "v": crate::util::toks_explicit(t.to_token_stream())})
 }
 
 macro_rules! dump_toks {
@@ -122,7 +122,7 @@ impl<T: Dump> Dump for Result<T, syn::Meta> {
     fn dump(&self) -> Value {
         match self {
             Ok(v) => json!({"t": "meta_ok", "v": v.dump()}),
-            Err(m) => json!({"t": "meta_err", "toks": m.to_token_stream().to_string()}),
+            Err(m) => json!({"t": "meta_err", "toks": crate::util::toks_explicit(m.to_token_stream())}),
         }
     }
 }
@@ -141,7 +141,7 @@ impl<T: Dump> Dump for darling::util::SpannedValue<T> {
 }
 impl<T: Dump> Dump for darling::util::WithOriginal<T, syn::Meta> {
     fn dump(&self) -> Value {
-        json!({"t": "with_orig", "v": self.parsed.dump(), "toks": self.original.to_token_stream().to_string()})
+        json!({"t": "with_orig", "v": self.parsed.dump(), "toks": crate::util::toks_explicit(self.original.to_token_stream())})
     }
 }
 impl Dump for darling::util::Flag {
